@@ -106,6 +106,53 @@ theorem list_sum_map_range (N : ℕ) (f : ℕ → ℚ) :
   | succ n ih =>
     rw [List.range_succ, List.map_append, List.sum_append, ih, Finset.sum_range_succ]; simp
 
+/-! general facts about the sample covariance (used by `Props/C09.lean` and `Props/C10.lean`) -/
+
+theorem mean_affine (N : ℕ) (X : ℕ → ℕ → ℚ) (a : ℚ) (c : ℕ → ℚ) (hN : 0 < N) (j : ℕ) :
+    colMean N (fun i j => a * X i j + c j) j = a * colMean N X j + c j := by
+  unfold colMean
+  have : (N : ℚ) ≠ 0 := by exact_mod_cast hN.ne'
+  rw [Finset.sum_add_distrib, ← Finset.mul_sum, Finset.sum_const, card_range, nsmul_eq_mul]
+  field_simp
+
+theorem cov_quadratic_form (N ddof m : ℕ) (X : ℕ → ℕ → ℚ) (v : ℕ → ℚ) :
+    ∑ a ∈ range m, ∑ b ∈ range m, v a * v b * cov N ddof X a b =
+      (∑ i ∈ range N, (∑ a ∈ range m, v a * center N X i a) ^ 2) / ((N : ℚ) - ddof) := by
+  unfold cov covOf
+  have : ∀ i, (∑ a ∈ range m, v a * center N X i a) ^ 2 =
+      ∑ a ∈ range m, ∑ b ∈ range m, v a * v b * (center N X i a * center N X i b) := by
+    intro i
+    rw [sq, Finset.sum_mul_sum]
+    apply Finset.sum_congr rfl; intro a _
+    apply Finset.sum_congr rfl; intro b _
+    ring
+  simp_rw [this, Finset.sum_div, Finset.mul_sum, mul_div_assoc']
+  conv_rhs => rw [Finset.sum_comm]
+  apply Finset.sum_congr rfl; intro a _
+  conv_rhs => rw [Finset.sum_comm]
+
+theorem cov_affine (N ddof : ℕ) (X : ℕ → ℕ → ℚ) (s : ℚ) (c : ℕ → ℚ) (hN : 0 < N) (a b : ℕ) :
+    cov N ddof (fun i j => s * X i j + c j) a b = s ^ 2 * cov N ddof X a b := by
+  unfold cov covOf center
+  simp only [mean_affine N X s c hN]
+  rw [mul_div_assoc', Finset.mul_sum]
+  congr 1
+  apply Finset.sum_congr rfl; intro i _; ring
+
+theorem cov_diag (N : ℕ) (X : ℕ → ℕ → ℚ) (j : ℕ) :
+    popVar N X j = cov N 0 X j j ∧ (∀ ddof, ddof < N → 0 ≤ cov N ddof X j j) := by
+  constructor
+  · unfold popVar cov covOf center
+    simp only [Nat.cast_zero, sub_zero]
+    congr 1
+    apply Finset.sum_congr rfl; intro i _; ring
+  · intro ddof h
+    unfold cov covOf
+    apply div_nonneg
+    · exact Finset.sum_nonneg fun i _ => mul_self_nonneg _
+    · have : (ddof : ℚ) < N := by exact_mod_cast h
+      linarith
+
 /-! rounding half to even (`np.round`) stays within 1/2 of its argument -/
 
 theorem floor_le' (x : ℚ) : ((x.floor : ℤ) : ℚ) ≤ x := Rat.le_floor_iff.mp le_rfl
